@@ -102,7 +102,7 @@ def obligations(ctx):
                     r.status = "inconclusive"
                     r.notes.append("cut-off argument not resolved")
                     continue
-                res, model = q.check(ev.reach, a != k)
+                res, model = q.check(ev.reach, a != k, domain=E.domain)
                 r.queries += 1
                 if res == z3.sat:
                     oblig.violated(r, E, q, ev, model, "archive cut-off differs from keep_from_log_id")
